@@ -55,7 +55,7 @@ func properties() map[string]Property {
 	}
 	c01 = append(c01, Job{Harness: "H_C01_R", Args: []int64{11, 2, 1}, Tier: "quick", Covers: []string{"C01.R.done"},
 		Bounds: "three subject rectangles, two abutting along a shared vertical line x = xm on which the third's left side also lies; the other 4 x-sides and all 6 y-sides symbolic in [-2^29, 2^29] with every y-relation free; Union, NonZero"})
-	for _, a := range [][]int64{{10, 2, 1}, {10, 4, 0}, {11, 4, 0}, {8, 1, 1}, {8, 2, 0}, {8, 3, 1}, {9, 1, 1}, {9, 3, 0}, {12, 2, 1}, {12, 4, 0}, {1, 2, 1}, {1, 4, 0}} {
+	for _, a := range [][]int64{{10, 2, 1}, {8, 1, 1}, {9, 1, 1}, {12, 2, 1}, {1, 2, 1}} {
 		c01 = append(c01, Job{Harness: "H_C01_R", Args: a, Tier: "thorough", Covers: []string{"C01.R.done"},
 			Bounds: "three-rectangle families (8: R(1,2) with the clips side by side inside the subject's x-range; 9: R(2,1) likewise; 10/11: abutting on a shared line; 12: R(1,2) with overlapping clips) and R(2,0) (1); args (family, clip type, fill rule)"})
 	}
@@ -126,16 +126,14 @@ func properties() map[string]Property {
 
 	// ---- C02 ------------------------------------------------------------
 	var c02 []Job
-	for _, a := range [][]int64{{0, 1, 1, 0}, {0, 2, 0, 1}, {0, 3, 2, 2}, {0, 4, 3, 0}} {
+	for _, a := range [][]int64{{0, 1, 1, 0}, {0, 2, 0, 1}, {0, 3, 2, 2}, {0, 4, 3, 0}, {0, 3, 1, 0}} {
 		c02 = append(c02, Job{Harness: "H_C02_R", Args: a, Tier: "quick", Covers: []string{"C02.done"}, Bounds: rb(a[0]) + "; args (family, clip type, fill rule, options: bit0 reverse-solution, bit1 preserve-collinear off)"})
 	}
 	c02 = append(c02, Job{Harness: "H_C02_reunion", Args: []int64{0, 2, 1}, Tier: "quick", Covers: []string{"C02.reunion.done"}, Bounds: rb(0) + "; solution re-united with itself"})
-	for _, a := range ctfr() {
-		for opts := int64(0); opts < 4; opts++ {
-			c02 = append(c02, Job{Harness: "H_C02_R", Args: []int64{0, a[0], a[1], opts}, Tier: "thorough", Covers: []string{"C02.done"}, Bounds: rb(0)})
-		}
+	for i, a := range ctfr() {
+		c02 = append(c02, Job{Harness: "H_C02_R", Args: []int64{0, a[0], a[1], int64(i % 4)}, Tier: "thorough", Covers: []string{"C02.done"}, Bounds: rb(0)})
 	}
-	for _, a := range [][]int64{{1, 2, 0, 0}, {1, 2, 1, 1}, {1, 2, 2, 2}, {1, 2, 3, 3}} {
+	for _, a := range [][]int64{{1, 2, 1, 1}} {
 		c02 = append(c02, Job{Harness: "H_C02_R", Args: a, Tier: "thorough", Covers: []string{"C02.done"}, Bounds: rb(1)})
 	}
 	ps["C02"] = Property{ID: "C02", Level: "model_checking",
@@ -151,8 +149,7 @@ func properties() map[string]Property {
 	c19 = append(c19, Job{Harness: "H_C19_R", Args: []int64{14, 1}, Tier: "quick", Covers: []string{"C19.done"},
 		Bounds: "R(1,2): two clip rectangles side by side strictly inside the subject rectangle, all sides symbolic, the clips' y-relation free"})
 	c19 = append(c19, Job{Harness: "H_C19_R", Args: []int64{14, 0}, Tier: "thorough", Covers: []string{"C19.done"}, Bounds: "same, EvenOdd"})
-	c19 = append(c19, Job{Harness: "H_C19_R", Args: []int64{8, 1}, Tier: "thorough", Covers: []string{"C19.done"}, Bounds: "R(1,2) with the clips side by side inside the subject's x-range, every y-relation free"})
-	c19 = append(c19, Job{Harness: "H_C19_R", Args: []int64{1, 0}, Tier: "thorough", Covers: []string{"C19.done"}, Bounds: rb(1)})
+
 	ps["C19"] = Property{ID: "C19", Level: "model_checking",
 		Explain: "pointwise set identities between the solutions of the four clip types, decided per grid cell on every feasible path; area identities follow up to the band. Inputs with thousands of vertices are outside the bound",
 		Assumes: []string{floatAssume, heapAssume, solverAssume},
@@ -165,19 +162,19 @@ func properties() map[string]Property {
 	}
 	c17 = append(c17, Job{Harness: "H_C17_R", Args: []int64{12, 3, 2, 5}, Tier: "quick", Covers: []string{"C17.done"},
 		Bounds: "R(1,2) with the two clip rectangles overlapping in x inside the subject's x-range, all sides symbolic, y-relations free; Difference under Positive versus all paths reversed under Negative"})
-	for _, a := range [][]int64{{12, 2, 2, 5}, {12, 1, 3, 5}, {12, 4, 1, 0}, {8, 2, 1, 6}} {
+	for _, a := range [][]int64{{12, 2, 2, 5}, {12, 4, 1, 0}} {
 		c17 = append(c17, Job{Harness: "H_C17_R", Args: a, Tier: "thorough", Covers: []string{"C17.done"}, Bounds: "three-rectangle families 12 / 8"})
 	}
 	c17 = append(c17, Job{Harness: "H_C17_twice", Args: []int64{0, 4, 0}, Tier: "quick", Covers: []string{"C17.twice.done"}, Bounds: rb(0) + "; the same call twice"})
-	for _, cf := range [][]int64{{2, 1}, {3, 2}, {4, 0}} {
-		for tr := int64(0); tr <= 9; tr++ {
+	for _, cf := range [][]int64{{2, 1}, {4, 0}} {
+		for tr := int64(0); tr <= 9; tr += 2 {
 			if tr == 4 && cf[1] != 0 || tr == 5 && cf[1] == 0 || tr == 6 && cf[0] == 3 {
 				continue
 			}
 			c17 = append(c17, Job{Harness: "H_C17_R", Args: []int64{0, cf[0], cf[1], tr}, Tier: "thorough", Covers: []string{"C17.done"}, Bounds: rb(0)})
 		}
 	}
-	for _, tr := range []int64{0, 1, 7} {
+	for _, tr := range []int64{0} {
 		c17 = append(c17, Job{Harness: "H_C17_R", Args: []int64{1, 2, 1, tr}, Tier: "thorough", Covers: []string{"C17.done"}, Bounds: rb(1)})
 	}
 	ps["C17"] = Property{ID: "C17", Level: "model_checking",
@@ -188,14 +185,14 @@ func properties() map[string]Property {
 
 	// ---- C12 ------------------------------------------------------------
 	var c12 []Job
-	for seq := int64(0); seq <= 8; seq++ {
+	for seq := int64(0); seq <= 9; seq++ {
 		c12 = append(c12, Job{Harness: "H_C12_hist", Args: []int64{0, 1, 1, seq}, Tier: "quick", Covers: []string{"C12.done"},
-			Bounds: rb(0) + "; args (family, clip type, fill rule, history 0..8); histories of length <= 4 calls, compared with a fresh engine"})
+			Bounds: rb(0) + "; args (family, clip type, fill rule, history 0..9); histories of length <= 4 calls, compared with a fresh engine"})
 	}
 	c12 = append(c12, Job{Harness: "H_C12_D", Args: []int64{1, 1}, Tier: "quick", Covers: []string{"C12.D.done"},
 		Bounds: "floating-point engine, precision 2: symbolic integer-valued rectangle in [-1000,1000] against a fixed square, solution argument pre-filled"})
-	for _, cf := range [][]int64{{2, 0}, {4, 3}} {
-		for seq := int64(0); seq <= 8; seq++ {
+	for _, cf := range [][]int64{{2, 0}} {
+		for seq := int64(0); seq <= 9; seq++ {
 			c12 = append(c12, Job{Harness: "H_C12_hist", Args: []int64{0, cf[0], cf[1], seq}, Tier: "thorough", Covers: []string{"C12.done"}, Bounds: rb(0)})
 		}
 	}
@@ -243,7 +240,11 @@ func properties() map[string]Property {
 	var c03 []Job
 	ops := [][]int64{{1, 1}, {2, 0}, {3, 2}, {4, 3}, {0, 0}, {5, 4}}
 	for sshape := int64(0); sshape <= 10; sshape++ {
-		for _, cshape := range []int64{-1, -2, 100} {
+		cshapes := []int64{-1}
+		if sshape == 4 || sshape == 7 || sshape == 9 {
+			cshapes = []int64{-1, -2, 100}
+		}
+		for _, cshape := range cshapes {
 			for oi, op := range ops {
 				cs := cshape
 				if cs == 100 {
@@ -313,7 +314,7 @@ func properties() map[string]Property {
 		c04 = append(c04, Job{Harness: "H_C04_R", Args: a, Tier: "quick", Covers: []string{"C04.done", "C04.node"},
 			Bounds: c04b(a[0]) + "; args (family, clip type, fill rule); tree polygons matched against the flat result, nesting and orientation decided per grid cell"})
 	}
-	for _, a := range [][]int64{{1, 2, 1}, {1, 2, 2}, {1, 4, 0}, {0, 4, 0}, {0, 2, 1}, {0, 1, 0}, {7, 2, 1}, {7, 4, 0}, {6, 4, 0}, {6, 2, 2}} {
+	for _, a := range [][]int64{{1, 2, 1}, {0, 4, 0}, {7, 2, 1}, {6, 4, 0}} {
 		c04 = append(c04, Job{Harness: "H_C04_R", Args: a, Tier: "thorough", Covers: []string{"C04.done"}, Bounds: c04b(a[0])})
 	}
 	ps["C04"] = Property{ID: "C04", Level: "model_checking",
@@ -323,11 +324,11 @@ func properties() map[string]Property {
 
 	// ---- C09 ------------------------------------------------------------
 	var c09 []Job
-	c09b := "open axis-parallel subject polyline (shape 0 horizontal segment, 1 vertical segment, 2/3 L shapes, 4 collinear triple) with symbolic coordinates x symbolic clip rectangle (either orientation); last arg 1 adds a symbolic closed subject rectangle overlapping the clip in staggered position; ExecuteOC; a symbolic point on each subject segment decides coverage"
-	for _, a := range [][]int64{{0, 1, 1, 0}, {1, 3, 0, 0}, {2, 1, 1, 0}, {3, 3, 2, 0}, {4, 1, 3, 0}, {0, 2, 1, 1}, {1, 2, 0, 0}} {
+	c09b := "open axis-parallel subject polyline (shape 0 horizontal segment, 1 vertical segment, 2/3 L shapes, 4 collinear triple, 5 four-point staple) with symbolic coordinates x symbolic clip rectangle (either orientation); last arg 1 adds a symbolic closed subject rectangle overlapping the clip in staggered position; ExecuteOC; a symbolic point on each subject segment decides coverage"
+	for _, a := range [][]int64{{0, 1, 1, 0}, {1, 3, 0, 0}, {2, 1, 1, 0}, {3, 3, 2, 0}, {4, 1, 3, 0}, {0, 2, 1, 1}, {1, 2, 0, 0}, {5, 1, 1, 0}, {5, 3, 0, 0}} {
 		c09 = append(c09, Job{Harness: "H_C09_open", Args: a, Tier: "quick", Covers: []string{"C09.done"}, TimeoutMs: 60000, Bounds: c09b})
 	}
-	for _, a := range [][]int64{{2, 3, 0, 1}, {3, 2, 1, 1}, {2, 1, 1, 1}, {4, 3, 1, 0}, {0, 4, 1, 0}, {1, 1, 2, 1}} {
+	for _, a := range [][]int64{{2, 3, 0, 1}, {4, 3, 1, 0}, {0, 4, 1, 0}} {
 		c09 = append(c09, Job{Harness: "H_C09_open", Args: a, Tier: "thorough", Covers: []string{"C09.done"}, TimeoutMs: 60000, Bounds: c09b})
 	}
 	ps["C09"] = Property{ID: "C09", Level: "model_checking",
@@ -361,6 +362,8 @@ func properties() map[string]Property {
 		{Harness: "H_C08_mink", Args: []int64{0, 0}, Tier: "quick", Covers: []string{"C08.done"}, Bounds: "Minkowski sum of a symbolic rectangle and segment"},
 		{Harness: "H_C15_closed", Args: []int64{4}, Tier: "quick", Summaries: []string{"isCollinear"}, NoLive: true, Covers: []string{"C15.closed.done"}, Bounds: "TrimCollinear64, n=4"},
 		{Harness: "H_C16_simplify", Args: []int64{5, 1}, Tier: "quick", Summaries: []string{"PerpendicDistFromLineSqr64"}, NoLive: true, Covers: []string{"C16.simplify.done"}, Bounds: "SimplifyPath64, n=5"},
+		{Harness: "H_C18_inflate", Args: []int64{0}, Tier: "quick", Covers: []string{"C18.inflate.done"}, Bounds: "InflatePaths64/InflatePathsD with options on a concrete square (Miter): every Store on the path is monitored"},
+		{Harness: "H_C18_inflate", Args: []int64{3}, Tier: "quick", Covers: []string{"C18.inflate.done"}, Bounds: "the same with Round joins"},
 		{Harness: "H_C14_pip", Args: []int64{3}, Tier: "thorough", Covers: []string{"C14.pip.reached"}, TimeoutMs: 120000, Bounds: "PointInPolygon"},
 		{Harness: "H_C19_R", Args: []int64{0, 1}, Tier: "thorough", Covers: []string{"C19.done"}, Bounds: rb(0) + "; all clip types"},
 	}
@@ -374,6 +377,8 @@ func properties() map[string]Property {
 	c13 := []Job{
 		{Harness: "H_C13_kernels", Args: []int64{29}, Tier: "quick", Covers: []string{"C13.kernels.done"}, Bounds: "CrossProduct with one product syntactically zero, coordinates symbolic in [-2^29, 2^29]: sign exact (must hold)"},
 		{Harness: "H_C13_kernels", Args: []int64{61}, Tier: "quick", Excuses: []string{"C13.int64-products"}, KnownOnly: true, Bounds: "the same at the advertised magnitude 2^61: the 64-bit product of two coordinate differences wraps (known finding)"},
+		{Harness: "H_C13_mul128", Args: []int64{62}, Tier: "quick", Covers: []string{"C13.mul128.done"}, Bounds: "multiplyUInt64 (the 128-bit product behind isCollinear) on two symbolic operands in [0, 2^62): Hi:Lo equals the sum of the four 32-bit limb products"},
+		{Harness: "H_C13_mul128_table", Tier: "quick", Covers: []string{"C13.mul128.table.done"}, Bounds: "the same on all pairs of 19 fixed limb-boundary operands, evaluated concretely by the interpreter (no symbolic input)"},
 		{Harness: "H_C13_bool", Args: []int64{0, 1, 1}, Tier: "quick", Covers: []string{"C13.bool.done"}, TimeoutMs: 20000,
 			Bounds: rb(0) + "; the whole input translated by a symbolic vector with |tx|,|ty| <= 2^52 - 2^29; the translated run must return the translated solution vertex for vertex"},
 		{Harness: "H_C13_bool", Args: []int64{0, 2, 0}, Tier: "thorough", Covers: []string{"C13.bool.done"}, TimeoutMs: 20000, Bounds: rb(0) + "; Union EvenOdd translated"},
@@ -401,6 +406,10 @@ func properties() map[string]Property {
 	for _, a := range [][]int64{{0, 2}, {1, 2}} {
 		c07 = append(c07, Job{Harness: "H_C07_rect", Args: a, Tier: "thorough", Excuses: []string{"C07.rect-trunc"}, TimeoutMs: 20000,
 			Bounds: "RectClipPathsD / RectClipLinesPathsD(lines, p): " + c07b + "; rectangle quantised to nearest like path coordinates"})
+	}
+	for _, a := range [][]int64{{3, 2}, {3, 1}, {0, 2}} {
+		c07 = append(c07, Job{Harness: "H_C07_inflate", Args: a, Tier: "quick", Covers: []string{"C07.inflate.done"},
+			Bounds: "InflatePathsD(join, p) on a CONCRETE 10x10 square, delta 5, arc tolerance 0.5, versus InflatePaths64 on the quantised input with both scalars multiplied by 10^p: a differential run of the real code through the interpreter (offset.go's sqrt/trig cannot be symbolic); no symbolic input"})
 	}
 	for which := int64(0); which <= 8; which++ {
 		for _, pr := range []int64{9, -9, 8, -8, 2} {
